@@ -554,8 +554,9 @@ func (inp Input) ABIType(pos int) (int, atype) {
 		}
 		base = tuple(fields...)
 	case strings.HasPrefix(inp.Type, "bytes"):
-		switch {
-		case strings.TrimSuffix(strings.TrimPrefix(inp.Type, "bytes"), "[") == "":
+		// bytes, bytes[], bytes[k] are dynamic. bytesN is static
+		switch elem, _, _ := strings.Cut(inp.Type, "["); {
+		case elem == "bytes":
 			base = dynamic()
 		default:
 			base = static()
